@@ -55,7 +55,7 @@ def gen(rng, tier):
     # ---- WebSocket over HTTP/2: control frames arriving while the stream's send buffer is full must not stop the reader, or the very
     # WINDOW_UPDATE that would drain the buffer is never read
     for rep in range(2 if tier == "quick" else 12):
-        for what in ("ping", "pings", "text"):
+        for what in ("ping", "pings", "text", "close"):
             n += 1
             yield _build_wsping(rng, 960000 + n, what)
     # ---- WSGI applications stream through the same back-pressure: the iterable is consumed only as fast as the client accepts data ----
@@ -82,11 +82,13 @@ def _build_wsping(rng, n, what):
           [["recv_until_disconnect"]]
     hd = [(b":method", b"CONNECT"), (b":protocol", b"websocket"), (b":scheme", b"http"), (b":path", b"/t%d" % n), (b":authority", b"h"),
           (b"sec-websocket-version", b"13")]
-    during = {"ping": _ws.frame(_ws.OP_PING, b"are-you-there"), "pings": b"".join(_ws.frame(_ws.OP_PING, b"p%d" % k) for k in range(50)),
+    during = {"close": _ws.close_frame(1000), "ping": _ws.frame(_ws.OP_PING, b"are-you-there"), "pings": b"".join(_ws.frame(_ws.OP_PING, b"p%d" % k) for k in range(50)),
               "text": _ws.message_frames(_ws.OP_TEXT, b"hello")}[what]
     total = nmsg * (size + 14) + 10000
     client = [["feed", client_preface(fb, rspec) + fb.headers(1, hd, end_stream=False)], ["settle"], ["feed", fb.data(1, during)], ["settle"],
               ["mark", "stall"], ["react", "window_update", 1, total], ["react", "window_update", 0, total], ["settle"]]
+    if what == "close":
+        client += [["advance", 1.0], ["eof"], ["settle"]]
     return {"family": "wsh2.%s-under-backpressure" % what, "backends": ["asyncio", "trio"], "config": {"keep_alive_timeout": 5000}, "conn": {},
             "apps": {"default": app, "websocket": app}, "client": client, "reactor": rspec,
             "truth": {"kind": "wsh2", "what": what, "size": nmsg * size, "chunk": size, "tag": n, "sib": [], "nmsg": nmsg, "release": "credit"},
@@ -313,6 +315,13 @@ def check(case, obs, tally):
             p_.feed(bytes(s_.data))
         got = sum(len(v) for k, v in p_.messages if k == "bytes")
         stuck = obs.open_sends()
+        if t["what"] == "close":
+            # the client has said goodbye: what still arrives of the data is not demanded, but nothing may be left hanging
+            if stuck or obs.handler != "ok":
+                out.append({"clause": "released", "sig": "C08.not-released/wsh2/close-while-buffer-full",
+                            "detail": "WebSocket over HTTP/2, send buffer full, the client sends Close, grants credit and finally EOF: %d application "
+                                      "send(s) still waiting, connection handler %s" % (len(stuck), obs.handler)})
+            return out
         if got != t["size"] or stuck:
             out.append({"clause": "released", "sig": "C08.not-released/wsh2/%s-while-buffer-full" % t["what"],
                         "detail": "WebSocket over HTTP/2, send buffer full (no credit), the client sends %s and then grants all the credit: %d of %d "
